@@ -392,7 +392,7 @@ def evaluate(spec, case, outcome, props=None):
     def holds(f):
         K.bind_strlits()
         s = z3.Solver()
-        s.set("timeout", 5000)
+        s.set("rlimit", 12000000)  # deterministic budget (about 5 s), no timer thread
         s.add(c.axioms)
         s.add(z3.Not(f))
         return s.check()
